@@ -188,3 +188,8 @@ Definition tg_ok (c : tgcase) : bool :=
   let '(ops, got, parked) := c in
   list_eqb (fun a b => N.eqb (fst a) (fst b) && N.eqb (snd a) (snd b)) (tm_public_run ops) got
   && N.eqb (N.of_nat (tm_public_parked ops)) parked.
+
+(* ---- prepared-proof validator on its own (engine `proofs`): committee, height, target view, proof, observed verdict ---- *)
+Definition pvcase := (committee * N * N * option pproof * bool)%type.
+Definition pv_ok (c : pvcase) : bool :=
+  let '(cm, h, target, p, o) := c in Bool.eqb (validate_proof cm h target p) o.
